@@ -183,13 +183,49 @@ func c10(c *Ctx) {
 					fmt.Sprintf("%s of shared node field %s (object %s) without copy: not fresh, not under a mutated() guard, not an in-place mutator", what, touched, desc(root)))
 			}
 		}
+		// deep-copy rule: leafValue objects are mutated in place by their owning leaf, so a leaf under
+		// construction must not adopt the leafValue pointers of a node that may be shared with snapshots
+		private := func(v ssa.Value) bool {
+			root, _ := rootOf(v)
+			return isFreshObj(root) || (mutRecv[top] && isReceiverOf(root, fn))
+		}
+		adopt := func(in ssa.Instruction, dst, src ssa.Value, what string) {
+			droot, dfields := rootOf(dst)
+			touches := false
+			for _, f := range dfields {
+				if f == "leafNode.values" {
+					touches = true
+				}
+			}
+			if !touches || !isFreshObj(droot) {
+				return
+			}
+			nw++
+			perKey["adopt"]++
+			construct := fmt.Sprintf("%s:%s:leafNode.values-elements#%d", fnName(fn), what, perKey["adopt"])
+			c.check(private(src), r+"/deep-copy", construct, c.pos(in.Pos()), "elements come from fresh leafValue objects or from a private node",
+				"a new leaf adopts the *leafValue objects of "+desc(src)+", which may still be referenced by snapshots: later in-place updates would alter those snapshots")
+		}
 		for _, b := range fn.Blocks {
 			for _, in := range b.Instrs {
 				switch x := in.(type) {
 				case *ssa.Store:
+					if ia, ok := x.Addr.(*ssa.IndexAddr); ok {
+						adopt(in, ia, x.Val, "element-store")
+					}
+					if f, base := fieldOf(x.Addr); f == "leafNode.values" && isFreshObj(base) {
+						// composite literal `values: <expr>`: a slice taken from another node
+						if _, isMake := x.Val.(*ssa.MakeSlice); !isMake {
+							nw++
+							perKey["adopt"]++
+							construct := fmt.Sprintf("%s:literal:leafNode.values#%d", fnName(fn), perKey["adopt"])
+							c.check(private(x.Val), r+"/deep-copy", construct, c.pos(in.Pos()), "slice comes from a private node", "a new leaf is built on the values slice of "+desc(x.Val)+", which may be shared with snapshots")
+						}
+					}
 					checkWrite(in, x.Addr, "store")
 				case *ssa.Call:
 					if bi, ok := x.Call.Value.(*ssa.Builtin); ok && bi.Name() == "copy" && len(x.Call.Args) == 2 {
+						adopt(in, x.Call.Args[0], x.Call.Args[1], "copy")
 						checkWrite(in, x.Call.Args[0], "copy-into")
 					}
 				}
